@@ -160,6 +160,31 @@ func runAccess(c runCfg) error {
 					}
 					return true
 				})
+				// a method with a pointer receiver called on a package-level variable may mutate it (sync.Pool.Get, Buffer.Write, ...)
+				ast.Inspect(fd.Body, func(n ast.Node) bool {
+					call, ok := n.(*ast.CallExpr)
+					if !ok {
+						return true
+					}
+					sel, ok := call.Fun.(*ast.SelectorExpr)
+					if !ok {
+						return true
+					}
+					if s, ok := p.TypesInfo.Selections[sel]; ok && s.Kind() == types.MethodVal {
+						if fnObj, ok := s.Obj().(*types.Func); ok {
+							if sig, ok := fnObj.Type().(*types.Signature); ok && sig.Recv() != nil {
+								if _, isPtr := sig.Recv().Type().(*types.Pointer); isPtr {
+									if id := base(sel.X); id != nil {
+										if obj, ok := p.TypesInfo.Uses[id].(*types.Var); ok && obj.Parent() == p.Types.Scope() {
+											written[id] = true
+										}
+									}
+								}
+							}
+						}
+					}
+					return true
+				})
 				ast.Inspect(fd.Body, func(n ast.Node) bool {
 					id, ok := n.(*ast.Ident)
 					if !ok {
